@@ -1014,7 +1014,8 @@ impl Check for C04 {
             let goldens = c01::load_goldens("C04.tsv");
             judge(&mut r, &all[lo..hi], &goldens, true);
             if let Some(c) = all.get(lo) {
-                r.sample(json!({"case": c.id}));
+                let strip = |t: &str| truncate(t.replace(super::PRELUDE, "").trim(), 700);
+                r.sample(json!({"case": c.id, "typescript": strip(&c.ts), "emit": strip(&c.js)}));
             }
         } else {
             let shard = if ctx.thorough() { (idx - ne) as u64 } else { ctx.seed % R_SHARDS };
